@@ -20,6 +20,9 @@ from trans import c15_formulas as TR
 
 ID = 'C15'
 PROPERTY_FILE = 'C15/Property.v'
+PROPERTY_FILES = ['C15/Property.v', 'C15/Property_code.v']
+# model-level theorems do not depend on Gen_Formulas.v: still checked when the translator fails closed
+PROPERTY_FILES_NO_GEN = ['C15/Property.v']
 LEVEL = 'other'
 ALLOWED_AXIOMS = coqrun.REAL_AXIOMS
 TRUSTED_BASE = [
@@ -837,6 +840,219 @@ def _oracle_pose_misc(ctx, n, fails):
     return cnt
 
 
+# ------------------------------------------------------------------------------------------ history oracle
+# The model treats a Pose as an immutable VALUE (rotation matrix + translation).  The Python object has state; the
+# history checks validate that after any sequence of method calls, property reads, copy.copy and scale() the object
+# still behaves exactly like a freshly constructed Pose with the same matrix_vec, and that every law still holds.
+_HIST_OPS = ('rt', 'irt', 'rtp', 'irtp', 'scale', 'copy', 'read', 'switch')
+
+
+def _gen_history(ctx, n_ops):
+    rvs = rotvecs(ctx, 4)
+    kind, r = rvs[ctx.rng.randrange(len(rvs))]
+    ops = []
+    for _ in range(n_ops):
+        o = ctx.rng.choice(_HIST_OPS)
+        if o in ('rt', 'irt'):
+            ops.append([o, _tvec(ctx, 5.0)])
+        elif o in ('rtp', 'irtp'):
+            ops.append([o, _tvec(ctx, 2.0), _tvec(ctx)])
+        elif o == 'scale':
+            ops.append([o, ctx.rng.choice((1.0, 0.5, 2.0, ctx.rng.uniform(0.1, 5.0)))])
+        elif o == 'read':
+            ops.append([o, ctx.rng.choice(('rot_matrix', 'rot_vec', 'rot_quat', 'translation', 'matrix_vec'))])
+        else:
+            ops.append([o, ctx.rng.randrange(4)])
+    return {'fn': 'pose_history', 'r': list(r), 't': _tvec(ctx), 'ops': ops, 'probe': _tvec(ctx, 5.0),
+            'q': [_tvec(ctx, 2.0), _tvec(ctx)]}
+
+
+def _run_history(case):
+    """executes the op list on live Pose objects next to shadow values (R, t) kept by the harness; after every op the
+    current object must (i) still have the shadow's matrix_vec, (ii) give the same results as a FRESH Pose(R, t),
+    (iii) satisfy inverse-undoes-forward for points and poses.  Returns (class, expected, observed, detail) or None."""
+    import copy
+    import numpy as np
+    from cflib.localization.lighthouse_types import Pose
+    from scipy.spatial.transform import Rotation
+    R0 = Rotation.from_rotvec(case['r']).as_matrix()
+    objs = [[Pose(R0.copy(), np.array(case['t'], dtype=float)), R0.copy(), np.array(case['t'], dtype=float)]]
+    cur = 0
+    x = np.array(case['probe'], dtype=float)
+    Qr = Rotation.from_rotvec(case['q'][0]).as_matrix()
+    Qt = np.array(case['q'][1], dtype=float)
+
+    def close(a, b, sc):
+        return float(np.max(np.abs(np.asarray(a) - np.asarray(b)))) <= 1e-9 * sc
+
+    def laws(step):
+        for k, (P, R, t) in enumerate(objs):
+            sc = 1.0 + float(np.max(np.abs(t))) + float(np.max(np.abs(x))) + float(np.max(np.abs(Qt)))
+            tag = 'after op %d (%s), object %d' % (step, case['ops'][step][0] if step >= 0 else 'init', k)
+            Rm, tv = P.matrix_vec
+            if not (np.array_equal(Rm, R) and close(tv, t, sc) and np.array_equal(P.rot_matrix, R) and close(P.translation, t, sc)):
+                return ('pose_history_state', [R.tolist(), t.tolist()], [np.asarray(Rm).tolist(), np.asarray(tv).tolist()],
+                        tag + ': matrix_vec must be the value the operations so far define')
+            F = Pose(R.copy(), t.copy())
+            Q = Pose(Qr.copy(), Qt.copy())
+            pairs = [('rotate_translate', P.rotate_translate(x), F.rotate_translate(x)),
+                     ('inv_rotate_translate', P.inv_rotate_translate(x), F.inv_rotate_translate(x))]
+            for nm in ('rotate_translate_pose', 'inv_rotate_translate_pose'):
+                a, b = getattr(P, nm)(Q), getattr(F, nm)(Q)
+                pairs.append((nm + '.R', a.rot_matrix, b.rot_matrix))
+                pairs.append((nm + '.t', a.translation, b.translation))
+            for nm, a, b in pairs:
+                if not close(a, b, sc):
+                    return ('pose_history_differs_from_fresh', np.asarray(b).tolist(), np.asarray(a).tolist(),
+                            tag + ': %s must equal that of a fresh Pose with the same matrix_vec' % nm)
+            back = P.inv_rotate_translate(P.rotate_translate(x))
+            back2 = P.rotate_translate(P.inv_rotate_translate(x))
+            pb = P.inv_rotate_translate_pose(P.rotate_translate_pose(Q))
+            if not (close(back, x, sc) and close(back2, x, sc) and close(pb.rot_matrix, Qr, sc) and close(pb.translation, Qt, sc)):
+                return ('pose_history_inverse', x.tolist(), [back.tolist(), back2.tolist()],
+                        tag + ': inverse must undo forward for the object in its current state')
+        return None
+
+    f = laws(-1)
+    if f:
+        return f
+    for step, op in enumerate(case['ops']):
+        P, R, t = objs[cur]
+        o = op[0]
+        if o == 'rt':
+            P.rotate_translate(np.array(op[1]))
+        elif o == 'irt':
+            P.inv_rotate_translate(np.array(op[1]))
+        elif o in ('rtp', 'irtp'):
+            Q = Pose(Rotation.from_rotvec(op[1]).as_matrix(), np.array(op[2]))
+            (P.rotate_translate_pose if o == 'rtp' else P.inv_rotate_translate_pose)(Q)
+        elif o == 'scale':
+            P.scale(op[1])
+            objs[cur][2] = t * op[1]
+        elif o == 'copy':
+            if len(objs) < 4:
+                objs.append([copy.copy(P), R.copy(), objs[cur][2].copy()])
+                cur = len(objs) - 1
+        elif o == 'read':
+            getattr(P, op[1])
+        elif o == 'switch':
+            cur = op[1] % len(objs)
+        f = laws(step)
+        if f:
+            return f
+    return None
+
+
+def _shrink_history(case):
+    """greedy removal of operations while the case still fails (same class)"""
+    f0 = _run_history(case)
+    if not f0:
+        return case, f0
+    ops = list(case['ops'])
+    i = 0
+    while i < len(ops):
+        trial = dict(case, ops=ops[:i] + ops[i + 1:])
+        try:
+            f = _run_history(trial)
+        except Exception:  # noqa
+            f = None
+        if f and f[0] == f0[0]:
+            ops = trial['ops']
+            f0 = f
+        else:
+            i += 1
+    return dict(case, ops=ops), f0
+
+
+def _oracle_history(ctx, n, fails):
+    cnt = 0
+    for _ in range(n):
+        case = _gen_history(ctx, ctx.rng.randrange(2, 9))
+        cnt += len(case['ops']) + 1
+        try:
+            f = _run_history(case)
+            if f:
+                case, f = _shrink_history(case)
+                _fail(fails, f[0], case, f[1], f[2], f[3])
+        except Exception as e:  # noqa
+            _fail(fails, 'pose_raises', case, 'no exception', repr(e), 'pose operation raised in a history')
+    return cnt
+
+
+def _oracle_scaler(ctx, n, fails):
+    """LighthouseSystemScaler._scale_system on poses that have already been used (inverse taken): the returned poses
+    are the inputs with the translation scaled, obey the laws, and the inputs are unchanged"""
+    import numpy as np
+    from cflib.localization.lighthouse_system_scaler import LighthouseSystemScaler
+    from cflib.localization.lighthouse_types import Pose
+    cnt = 0
+    for _ in range(n):
+        k = ctx.rng.choice((0.5, 2.0, ctx.rng.uniform(0.2, 4.0)))
+        spec = [(_tvec(ctx, 1.5), _tvec(ctx)) for _ in range(4)]
+        x = np.array(_tvec(ctx, 5.0))
+        case = {'fn': 'scaler', 'poses': [[r, t] for r, t in spec], 'k': k, 'x': x.tolist()}
+        try:
+            f = _run_scaler(case)
+            if f:
+                _fail(fails, f[0], case, f[1], f[2], f[3])
+            cnt += 4
+        except Exception as e:  # noqa
+            _fail(fails, 'pose_raises', case, 'no exception', repr(e), 'LighthouseSystemScaler._scale_system raised')
+    return cnt
+
+
+def _run_scaler(case):
+    import numpy as np
+    from cflib.localization.lighthouse_system_scaler import LighthouseSystemScaler
+    from cflib.localization.lighthouse_types import Pose
+    k, x = case['k'], np.array(case['x'])
+    poses = [Pose.from_rot_vec(r, t) for r, t in case['poses']]
+    for p in poses:
+        p.inv_rotate_translate(x)            # the poses have been used before they are scaled
+        p.inv_rotate_translate_pose(poses[0])
+    before = [(p.rot_matrix.copy(), p.translation.copy()) for p in poses]
+    bs, cf, kk = LighthouseSystemScaler._scale_system({0: poses[0], 3: poses[1]}, poses[2:], k)
+    out = [bs[0], bs[3]] + list(cf)
+    for p, (R, t), q in zip(poses, before, out):
+        sc = 1.0 + k * float(np.max(np.abs(t))) + float(np.max(np.abs(x)))
+        if not (np.array_equal(p.rot_matrix, R) and np.array_equal(p.translation, t)):
+            return ('pose_mutates_arguments', [R.tolist(), t.tolist()], [p.rot_matrix.tolist(), p.translation.tolist()],
+                    '_scale_system must not modify the poses it is given')
+        if not (np.array_equal(q.rot_matrix, R) and float(np.max(np.abs(q.translation - k * t))) <= 1e-9 * sc):
+            return ('pose_scale', (k * t).tolist(), q.translation.tolist(), 'scaled pose must be (R, k t)')
+        F = Pose(R.copy(), k * t)
+        got, want = q.inv_rotate_translate(x), F.inv_rotate_translate(x)
+        back = q.inv_rotate_translate(q.rotate_translate(x))
+        if not (float(np.max(np.abs(got - want))) <= 1e-9 * sc and float(np.max(np.abs(back - x))) <= 1e-9 * sc):
+            return ('pose_history_inverse', [want.tolist(), x.tolist()], [got.tolist(), back.tolist()],
+                    'a pose returned by _scale_system must behave like a fresh Pose(R, k t): inverse undoes forward')
+    return None
+
+
+def _oracle_bsv_history(ctx, n, fails):
+    """LighthouseBsVector has no mutable state: any order / repetition of property reads gives the values of a fresh
+    object"""
+    from cflib.localization.lighthouse_bs_vector import LighthouseBsVector as BV
+    props = ('lh_v1_horiz_angle', 'lh_v1_vert_angle', 'lh_v1_angle_pair', 'lh_v2_angle_1', 'lh_v2_angle_2', 'cart', 'projection')
+    cnt = 0
+    for _ in range(n):
+        h, v = ctx.rng.uniform(-H_MAX, H_MAX) * D2R, ctx.rng.uniform(-V_MAX, V_MAX) * D2R
+        order = [ctx.rng.choice(props) for _ in range(10)]
+        case = {'fn': 'bsv_history', 'h': h, 'v': v, 'order': order}
+        try:
+            b = BV(h, v)
+            for nm in order:
+                a = getattr(b, nm)
+                f = getattr(BV(h, v), nm)
+                if [float(z) for z in (a if hasattr(a, '__len__') else [a])] != [float(z) for z in (f if hasattr(f, '__len__') else [f])]:
+                    _fail(fails, 'bsv_history', case, repr(f), repr(a), 'property %s changed after earlier reads' % nm)
+                    break
+            cnt += 1
+        except Exception as e:  # noqa
+            _fail(fails, 'bsv_raises', case, 'no exception', repr(e), 'property read raised')
+    return cnt
+
+
 def _corpus(ctx):
     import glob
     import json
@@ -859,24 +1075,32 @@ def oracle(ctx, deep=False):
             fails.append(f)
     n += _oracle_defaults(fails)
     big = deep or ctx.thorough
-    if big:
+
+    def sz(quick, mid, thorough):      # mid: failure search (deep) inside the quick tier, whole run < 1 min
+        return thorough if ctx.thorough else (mid if deep else quick)
+    if ctx.thorough:
         pts = fov_grid(ctx, 961, 661, 100000)
+    elif deep:            # failure search inside the quick tier: keep the whole run under a minute
+        pts = fov_grid(ctx, 481, 331, 30000)
     else:
         pts = fov_grid(ctx, 321, 221, 10000)
     for (h, v) in pts:
         n += _oracle_bsv(h, v, fails)
-    rvs = rotvecs(ctx, 20000 if big else 1500)
+    rvs = rotvecs(ctx, sz(1500, 5000, 20000))
     for i, (kind, r) in enumerate(rvs):
         k2, r2 = rvs[ctx.rng.randrange(len(rvs))]
         k3, r3 = rvs[ctx.rng.randrange(len(rvs))]
         n += _oracle_pose(kind + '+' + k2 + '+' + k3, list(r), _tvec(ctx), list(r2), _tvec(ctx), list(r3), _tvec(ctx),
                           _tvec(ctx, 5.0), fails)
-    n += _oracle_paths(_path_rows(ctx, 60000 if big else 4000), fails)
-    n += _oracle_solver_reuse(ctx, 3000 if big else 300, fails)
-    n += _oracle_pose_misc(ctx, 3000 if big else 300, fails)
-    n += _oracle_vector_lists(ctx, 2000 if big else 200, fails)
-    n += _oracle_ippe(ctx, 3000 if big else 300, fails)
-    n += _oracle_ippe_solve(ctx, 500 if big else 40, fails)
+    n += _oracle_paths(_path_rows(ctx, sz(4000, 15000, 60000)), fails)
+    n += _oracle_solver_reuse(ctx, sz(300, 1000, 3000), fails)
+    n += _oracle_pose_misc(ctx, sz(300, 1000, 3000), fails)
+    n += _oracle_history(ctx, sz(600, 2000, 6000), fails)
+    n += _oracle_scaler(ctx, sz(100, 300, 1000), fails)
+    n += _oracle_bsv_history(ctx, sz(200, 500, 2000), fails)
+    n += _oracle_vector_lists(ctx, sz(200, 500, 2000), fails)
+    n += _oracle_ippe(ctx, sz(300, 1000, 3000), fails)
+    n += _oracle_ippe_solve(ctx, sz(40, 150, 500), fails)
     return {'evaluations': n, 'failures': fails,
             'distinct_nontrivial': len(pts) + len(rvs),
             'rule': 'property text on the real code: V1<->V2, cart, projection round trips and unit length on the FOV grid '
@@ -912,6 +1136,20 @@ def _replay_case(c):
         S = np.array(LhDeck4SensorPositions.positions, dtype=float)
         for f in _solver_reuse_case(c, np, GS, LighthouseGeometrySolution(), S, S.shape[0], Pose):
             _fail(fails, f[0], c, f[1], f[2], f[3])
+    elif fn == 'pose_history':
+        f = _run_history(c)
+        if f:
+            _fail(fails, f[0], c, f[1], f[2], f[3])
+    elif fn == 'scaler':
+        f = _run_scaler(c)
+        if f:
+            _fail(fails, f[0], c, f[1], f[2], f[3])
+    elif fn == 'bsv_history':
+        import random
+
+        class _B:
+            rng = random.Random(0)
+        _oracle_bsv_history(_B, 50, fails)
     elif fn == 'pose_misc':
         import random
 
